@@ -6,7 +6,10 @@ import (
 	"context"
 	"encoding/json"
 	"fmt"
+	"os"
 	"reflect"
+	"sort"
+	"strings"
 	"testing"
 
 	"verif/internal/vk"
@@ -215,12 +218,552 @@ func runCase(r *vk.Run, c Case) *vk.Fail {
 	return nil
 }
 
-const rule = "histories over a tree of contexts: root built by one of 6 constructors (NewContext, NewContextWith with user maps that do / do not pre-bind the built-in name 'len' or bind nil, NewContextWithContext over a context.Context holding a string key), then operations New(c) and Set(c,k,v) with keys {a,b,len} and values {1,2,nil}; after EVERY step every (context,key) pair is read with Value and Has and compared with a chain-of-maps reference model (nearest entry wins; Has <=> visible value non-nil; the built-in is injected into a new context iff the name yields nil there). (E) every history of length <= L (quick 4, thorough 5) over <= 4 contexts for every root; (R) random histories of up to 300 operations over unboundedly many contexts, all calls made through the hctx.Context interface. Non-trivial = the history contains a Set after a New; distinct by (root, history)."
+// ============================================================================
+// Widened histories (kind "xhist"): more keys (several built-in names, a helper
+// registered late with plush.Helpers.Add, "", "A"), more values (falsy non-nil
+// values, uncomparable values, a function), child creation with initial data
+// (NewContextWithOuter), explicit Value / Has operations with no reads in
+// between (sparse histories), deep chains, and a sweep over EVERY built-in name.
+// ============================================================================
+
+// knownOpen: generator classes that are NOT ASSERTED (the general generators steer away from them, counted with
+// r.Exclude). Neither is covered by the statement, which speaks of New, Set, Value and Has with the keys Set takes:
+//
+//	nil-data-map             NewContextWith(nil) / NewContextWithOuter(nil, c) fail in (or right after) the constructor:
+//	                         misuse of the constructor, no history of New / Set / Value / Has is involved
+//	typed-key-through-outer  a non-string key held by a wrapped context.Context is not visible from child contexts:
+//	                         such keys cannot be Set at all; what a child shows of them is not stated
+//
+// The shapes stay in the generator behind this switch (and C10_WITNESSES=1 runs the eight fixed witnesses).
+var knownOpen = map[string]bool{
+	"nil-data-map":            true, // NewContextWith(nil) / NewContextWithOuter(nil, c): assignment to entry in nil map
+	"typed-key-through-outer": true, // a non-string key of the wrapped context.Context is invisible from child contexts
+}
+
+type XOp struct {
+	Op      string            `json:"op"`  // new | newouter | set | value | has
+	Ctx     int               `json:"ctx"` // index modulo the number of contexts so far; -1 = the most recently created
+	Key     string            `json:"key,omitempty"`
+	Val     string            `json:"val,omitempty"`     // name in the value pool
+	Data    map[string]string `json:"data,omitempty"`    // newouter: initial data (key -> value name)
+	NilData bool              `json:"nildata,omitempty"` // newouter: pass a nil map
+}
+
+type XCase struct {
+	Root   int   `json:"root"`
+	Sparse bool  `json:"sparse,omitempty"` // no reads except the explicit value / has operations and the final sweep
+	Ops    []XOp `json:"ops"`
+}
+
+const lateName = "c10late"
+
+func lateHelper() string { return "late" }
+func userFn() string     { return "user" }
+
+var (
+	valMap   = map[string]interface{}{"x": 1}
+	valSlice = []int{1, 2}
+)
+
+// value pool, by name. "nil" is the absent / nil value.
+var xvals = []string{"nil", "1", "2", "0", "false", "empty", "map", "slice", "func"}
+
+func xval(name string) interface{} {
+	switch name {
+	case "nil":
+		return nil
+	case "1":
+		return 1
+	case "2":
+		return 2
+	case "0":
+		return 0
+	case "false":
+		return false
+	case "empty":
+		return ""
+	case "map":
+		return valMap
+	case "slice":
+		return valSlice
+	case "func":
+		return userFn
+	case "W":
+		return "W"
+	case "T":
+		return "T"
+	}
+	panic("harness: unknown value name " + name)
+}
+
+func fptr(v interface{}) (uintptr, bool) {
+	rv := reflect.ValueOf(v)
+	if !rv.IsValid() || rv.Kind() != reflect.Func {
+		return 0, false
+	}
+	return rv.Pointer(), true
+}
+
+// xsame: is real the value named by the model? Reference values must be the very
+// value that was Set (same map, same backing array, same function).
+func xsame(real interface{}, name string) bool {
+	if strings.HasPrefix(name, "BUILTIN:") {
+		h := name[len("BUILTIN:"):]
+		if wp, ok := helperPtr[h]; ok {
+			rp, ok2 := fptr(real)
+			return ok2 && rp == wp
+		}
+		return reflect.DeepEqual(real, plush.Helpers.All()[h])
+	}
+	switch name {
+	case "nil":
+		return real == nil
+	case "map":
+		m, ok := real.(map[string]interface{})
+		return ok && reflect.ValueOf(m).Pointer() == reflect.ValueOf(valMap).Pointer()
+	case "slice":
+		sl, ok := real.([]int)
+		return ok && len(sl) == len(valSlice) && &sl[0] == &valSlice[0]
+	case "func":
+		rp, ok := fptr(real)
+		up, _ := fptr(userFn)
+		return ok && rp == up
+	}
+	return reflect.DeepEqual(real, xval(name))
+}
+
+var (
+	xkeys       = []string{"a", "b", "", "A", "len", "partial", "raw", lateName}
+	inXkeys     = map[string]bool{"a": true, "b": true, "": true, "A": true, "len": true, "partial": true, "raw": true, lateName: true}
+	helperNames []string // every name in plush.Helpers, sorted (filled by setup, after the late registration)
+	isHelper    = map[string]bool{}
+	helperPtr   = map[string]uintptr{} // code pointer of every built-in that is a function
+)
+
+func registerLate() {
+	// anything plush computes lazily on first use is computed now, BEFORE the late helper is registered
+	_ = plush.NewContext().New()
+	plush.Helpers.Add(lateName, lateHelper)
+	helperNames = helperNames[:0]
+	for k, v := range plush.Helpers.All() {
+		helperNames = append(helperNames, k)
+		isHelper[k] = true
+		if p, ok := fptr(v); ok {
+			helperPtr[k] = p
+		}
+	}
+	sort.Strings(helperNames)
+}
+
+type xctx struct {
+	data    map[string]string
+	outer   *xctx
+	wrapped map[string]string // string keys of the wrapped context.Context (root only)
+	typed   map[string]string // wkey keys of the wrapped context.Context (root only)
+}
+
+func (m *xctx) value(k string) string {
+	if v, ok := m.data[k]; ok {
+		return v
+	}
+	if m.outer != nil {
+		return m.outer.value(k)
+	}
+	if v, ok := m.wrapped[k]; ok {
+		return v
+	}
+	return "nil"
+}
+
+func (m *xctx) tvalue(k string) string {
+	if m.outer != nil {
+		return m.outer.tvalue(k)
+	}
+	if v, ok := m.typed[k]; ok {
+		return v
+	}
+	return "nil"
+}
+
+// inject: construction-time injection of every built-in whose name yields nil there.
+func (m *xctx) inject() {
+	for _, h := range helperNames {
+		if m.value(h) == "nil" {
+			m.data[h] = "BUILTIN:" + h
+		}
+	}
+}
+
+func (m *xctx) child(data map[string]string) *xctx {
+	c := &xctx{data: map[string]string{}, outer: m}
+	for k, v := range data {
+		c.data[k] = v
+	}
+	c.inject()
+	return c
+}
+
+func realMap(names map[string]string) map[string]interface{} {
+	m := map[string]interface{}{}
+	for k, v := range names {
+		m[k] = xval(v)
+	}
+	return m
+}
+
+type xroot struct {
+	name  string
+	data  map[string]string // NewContextWith(data)
+	nil_  bool              // NewContextWith(nil)
+	wrap  map[string]string // NewContextWithContext over string keys
+	typed map[string]string // ... and wkey keys
+	inner map[string]string // NewContextWithContext(<a plush context built from this map>)
+	class string            // open class this root belongs to
+}
+
+var xroots = []xroot{
+	{name: "NewContext()"},
+	{name: "NewContextWith({})", data: map[string]string{}},
+	{name: `NewContextWith({"len": 1})`, data: map[string]string{"len": "1"}},
+	{name: `NewContextWith({"len": nil, "a": 1})`, data: map[string]string{"len": "nil", "a": "1"}},
+	{name: `NewContextWithContext(WithValue("b","W"))`, wrap: map[string]string{"b": "W"}},
+	{name: `NewContextWith({"b": nil, "partial": 2, "c10late": userFn})`, data: map[string]string{"b": "nil", "partial": "2", lateName: "func"}},
+	{name: `NewContextWith({"": 1, "A": 2, "raw": false})`, data: map[string]string{"": "1", "A": "2", "raw": "false"}},
+	{name: `NewContextWithContext(NewContextWith({"a": 1, "b": nil}))`, inner: map[string]string{"a": "1", "b": "nil"}},
+	{name: `NewContextWithContext(WithValue(WithValue("b","W"), wkey("t"), "T"))`, wrap: map[string]string{"b": "W"}, typed: map[string]string{"t": "T"}, class: "typed-key-through-outer"},
+	{name: "NewContextWith(nil)", nil_: true, class: "nil-data-map"},
+}
+
+func mkXRoot(kind int) (hctx.Context, *xctx) {
+	x := xroots[kind]
+	m := &xctx{data: map[string]string{}}
+	var c *plush.Context
+	switch {
+	case x.nil_:
+		c = plush.NewContextWith(nil)
+		m.inject()
+	case x.wrap != nil || x.typed != nil:
+		ctx := context.Background()
+		for _, k := range sortedKeys(x.wrap) {
+			ctx = context.WithValue(ctx, k, xval(x.wrap[k]))
+		}
+		for _, k := range sortedKeys(x.typed) {
+			ctx = context.WithValue(ctx, wkey(k), xval(x.typed[k]))
+		}
+		c = plush.NewContextWithContext(ctx)
+		m.inject() // the built-ins are injected before the context.Context is attached
+		m.wrapped, m.typed = x.wrap, x.typed
+	case x.inner != nil:
+		c = plush.NewContextWithContext(plush.NewContextWith(realMap(x.inner)))
+		m.inject()
+		m.wrapped = map[string]string{}
+		for k, v := range x.inner {
+			m.wrapped[k] = v
+		}
+	case x.data != nil:
+		c = plush.NewContextWith(realMap(x.data))
+		for k, v := range x.data {
+			m.data[k] = v
+		}
+		m.inject()
+	default:
+		c = plush.NewContext()
+		m.inject()
+	}
+	return c, m
+}
+
+func sortedKeys(m map[string]string) []string {
+	var ks []string
+	for k := range m {
+		ks = append(ks, k)
+	}
+	sort.Strings(ks)
+	return ks
+}
+
+func (o XOp) String() string {
+	c := fmt.Sprintf("c%d", o.Ctx)
+	if o.Ctx < 0 {
+		c = "last"
+	}
+	switch o.Op {
+	case "new":
+		return c + ".New()"
+	case "newouter":
+		if o.NilData {
+			return "NewContextWithOuter(nil, " + c + ")"
+		}
+		var parts []string
+		for _, k := range sortedKeys(o.Data) {
+			parts = append(parts, fmt.Sprintf("%q: %s", k, o.Data[k]))
+		}
+		return "NewContextWithOuter({" + strings.Join(parts, ", ") + "}, " + c + ")"
+	case "set":
+		return fmt.Sprintf("%s.Set(%q, %s)", c, o.Key, o.Val)
+	case "value":
+		return fmt.Sprintf("%s.Value(%q)", c, o.Key)
+	case "has":
+		return fmt.Sprintf("%s.Has(%q)", c, o.Key)
+	}
+	return "?" + o.Op
+}
+
+// xclass: the open defect class a case belongs to ("" = none).
+func xclass(c XCase) string {
+	if c.Root >= 0 && c.Root < len(xroots) && xroots[c.Root].class != "" {
+		return xroots[c.Root].class
+	}
+	for _, o := range c.Ops {
+		if o.Op == "newouter" && o.NilData {
+			return "nil-data-map"
+		}
+	}
+	return ""
+}
+
+func validX(c XCase) bool {
+	if c.Root < 0 || c.Root >= len(xroots) {
+		return false
+	}
+	for _, o := range c.Ops {
+		switch o.Op {
+		case "new", "value", "has":
+		case "set":
+			if !knownVal(o.Val) {
+				return false
+			}
+		case "newouter":
+			for k, v := range o.Data {
+				// a nil entry under a built-in name in the initial data of a child: whether the
+				// built-in replaces it is not fixed by the statement (unspecified, never generated)
+				if !knownVal(v) || (v == "nil" && isHelper[k]) {
+					return false
+				}
+			}
+		default:
+			return false
+		}
+	}
+	return true
+}
+
+func knownVal(v string) bool {
+	for _, x := range xvals {
+		if x == v {
+			return true
+		}
+	}
+	return false
+}
+
+func runX(r *vk.Run, c XCase) *vk.Fail {
+	defer r.Watch("xhist", c)()
+	cls := xclass(c)
+	mk := func(format string, a ...interface{}) *vk.Fail {
+		f := vk.Failf("xhist", c, format, a...)
+		f.Class = cls
+		return f
+	}
+	var fail *vk.Fail
+	step, what := 0, "construction"
+	res := vk.Safe(func() (string, error) {
+		root, mroot := mkXRoot(c.Root)
+		real := []hctx.Context{root}
+		model := []*xctx{mroot}
+		rootName := xroots[c.Root].name
+		read := func(i int, k string) bool {
+			want := model[i].value(k)
+			if got := real[i].Value(k); !xsame(got, want) {
+				fail = mk("root %s, after step %d (%s): c%d.Value(%q) = %v (%T), model says %s", rootName, step, what, i, k, got, got, want)
+				return false
+			}
+			return true
+		}
+		has := func(i int, k string) bool {
+			want := model[i].value(k)
+			if h := real[i].Has(k); h != (want != "nil") {
+				fail = mk("root %s, after step %d (%s): c%d.Has(%q) = %v but the visible value is %s", rootName, step, what, i, k, h, want)
+				return false
+			}
+			return true
+		}
+		sweep := func(all bool) bool {
+			for i := range real {
+				for _, k := range xkeys {
+					if !read(i, k) || !has(i, k) {
+						return false
+					}
+				}
+				if all {
+					for _, k := range helperNames {
+						if inXkeys[k] {
+							continue
+						}
+						if !read(i, k) || !has(i, k) {
+							return false
+						}
+					}
+					for _, k := range sortedKeys(mroot.typed) {
+						want := model[i].tvalue(k)
+						if got := real[i].Value(wkey(k)); !xsame(got, want) {
+							fail = mk("root %s, after step %d (%s): c%d.Value(wkey(%q)) = %v but the root's wrapped context.Context holds %s and no context on the path can shadow a non-string key", rootName, step, what, i, k, got, want)
+							return false
+						}
+					}
+				}
+			}
+			return true
+		}
+		// construction: the pool keys (the final sweep reads every built-in name in every context, the root included)
+		if !sweep(len(c.Ops) == 0) {
+			return "", nil
+		}
+		for si, o := range c.Ops {
+			i := o.Ctx
+			if i < 0 {
+				i = len(real) - 1
+			} else {
+				i %= len(real)
+			}
+			o.Ctx = i
+			step, what = si+1, o.String()
+			switch o.Op {
+			case "new":
+				real = append(real, real[i].New())
+				model = append(model, model[i].child(nil))
+			case "newouter":
+				var d map[string]interface{}
+				if !o.NilData {
+					d = realMap(o.Data)
+				}
+				real = append(real, plush.NewContextWithOuter(d, real[i].(*plush.Context)))
+				model = append(model, model[i].child(o.Data))
+			case "set":
+				real[i].Set(o.Key, xval(o.Val))
+				model[i].data[o.Key] = o.Val
+			case "value":
+				if !read(i, o.Key) {
+					return "", nil
+				}
+			case "has":
+				if !has(i, o.Key) {
+					return "", nil
+				}
+			}
+			if !c.Sparse && !sweep(false) {
+				return "", nil
+			}
+		}
+		what += ", final sweep over every key and every built-in name"
+		sweep(true)
+		return "", nil
+	})
+	if res.Panicked() {
+		return mk("root %s, at step %d (%s): %s", xroots[c.Root].name, step, what, res)
+	}
+	if fail != nil {
+		return fail
+	}
+	// evidence: non-trivial = a write (Set, or initial data of a child) at or after the creation of a child
+	news, writesAfterNew, depth := 0, 0, 0
+	feat := map[string]bool{}
+	for _, o := range c.Ops {
+		switch o.Op {
+		case "new", "newouter":
+			news++
+			if o.Ctx < 0 {
+				depth++
+			}
+			if o.Op == "newouter" {
+				feat["newouter"] = true
+				if len(o.Data) > 0 {
+					writesAfterNew++
+				}
+			}
+		case "set":
+			if news > 0 {
+				writesAfterNew++
+			}
+			switch o.Val {
+			case "nil":
+				feat["nilset"] = true
+			case "0", "false", "empty":
+				feat["falsy"] = true
+			case "map", "slice", "func":
+				feat["reference-value"] = true
+			}
+			if isHelper[o.Key] {
+				feat["builtin-key"] = true
+			}
+		case "value", "has":
+			feat["read-op"] = true
+		}
+	}
+	if depth >= 32 {
+		feat["deep>=32"] = true
+	}
+	if c.Sparse {
+		feat["sparse"] = true
+	}
+	nt := ""
+	if news > 0 && writesAfterNew > 0 {
+		b, _ := json.Marshal(c)
+		nt = "x" + string(b)
+	}
+	r.Count(nt, fmt.Sprintf("x:root%d", c.Root))
+	for _, f := range []string{"newouter", "nilset", "falsy", "reference-value", "builtin-key", "read-op", "deep>=32", "sparse"} {
+		if feat[f] {
+			r.Class("x:+" + f)
+		}
+	}
+	if nt != "" {
+		r.Sample(func() interface{} {
+			var ops []string
+			for _, o := range c.Ops {
+				ops = append(ops, o.String())
+			}
+			return map[string]interface{}{"root": xroots[c.Root].name, "sparse": c.Sparse, "ops": ops}
+		})
+	}
+	return nil
+}
+
+// isOpen: the class is listed in knownOpen or by an open entry of known_findings.json.
+func isOpen(r *vk.Run, class string) bool { return knownOpen[class] || r.OpenClass(class) }
+
+// xrootPool: the roots the general generators may use (open classes steered away from).
+func xrootPool(r *vk.Run) []int {
+	var out []int
+	for i, x := range xroots {
+		if x.class != "" && isOpen(r, x.class) {
+			continue
+		}
+		out = append(out, i)
+	}
+	return out
+}
+
+const rule = "histories over a tree of contexts: root built by one of 6 constructors (NewContext, NewContextWith with user maps that do / do not pre-bind the built-in name 'len' or bind nil, NewContextWithContext over a context.Context holding a string key), then operations New(c) and Set(c,k,v) with keys {a,b,len} and values {1,2,nil}; after EVERY step every (context,key) pair is read with Value and Has and compared with a chain-of-maps reference model (nearest entry wins; Has <=> visible value non-nil; the built-in is injected into a new context iff the name yields nil there). (E) every history of length <= L (quick 4, thorough 5) over <= 4 contexts for every root; (R) random histories of up to 300 operations over unboundedly many contexts, all calls made through the hctx.Context interface. WIDE histories (kind xhist) against the same model extended to every name in plush.Helpers: 10 roots (also: user maps binding 'partial', 'raw': false, '', 'A', a helper registered with plush.Helpers.Add AFTER a first context was built; a wrapped plush context; a wrapped context.Context with a non-string key; a nil map), keys {a, b, '', A, len, partial, raw, c10late}, values {nil, 1, 2, 0, false, '', a map, a slice, a function} (reference values must come back identical, not equal), operations New, NewContextWithOuter(data, c) with initial data (never nil under a built-in name: unspecified) or a nil map, Set, and explicit Value / Has reads; dense cases read every (context, pool key) after every step, sparse cases only where the history says so; every case ends with a sweep of every context over the pool keys AND every built-in name (and the non-string key of the wrapped context.Context, which every context of the tree must see). (G, only with C10_WITNESSES=1) 8 fixed witnesses of the two classes that are generated but not asserted (nil data map handed to a constructor; non-string keys of a wrapped context.Context seen from a child); (E2) every single-key wide history of length 3 (quick: 2 except for keys a and c10late) over <= 3 contexts for every root and key; (R2) random wide histories of <= 40 operations, a third of the operations aimed at the most recent context; (R3) chains of up to D contexts (quick 160, thorough 320) with writes and reads on the way down and 1-3 late writes high up, read from every context. Generators steer away from the classes in knownOpen / open known findings (counted as excluded). Non-trivial = the history contains a Set after a New (wide: a Set, or initial data of a child, at or after the creation of a child); distinct by (root, history)."
 
 func setup(t *testing.T) *vk.Run {
 	r := vk.Start(t, "C10", rule,
 		"functions are compared by code pointer",
+		"a helper registered with plush.Helpers.Add counts as a built-in for every context built afterwards",
+		"injection of a built-in is modelled as a Set made by the constructor: a nil entry on the path at construction time lets the built-in in, and a later user Set on an ancestor does not remove it",
+		"chains deeper than 160 (thorough 320) contexts are not explored",
 		"sequential histories only (concurrent use is C14)")
+	registerLate()
+	r.Replayer("xhist", func(raw json.RawMessage) *vk.Fail {
+		var c XCase
+		if f := vk.Decode(raw, &c); f != nil {
+			return f
+		}
+		if !validX(c) {
+			return &vk.Fail{Kind: "decode", Msg: "bad xhist case"}
+		}
+		return runX(r, c)
+	})
 	r.Replayer("history", func(raw json.RawMessage) *vk.Fail {
 		var c Case
 		if f := vk.Decode(raw, &c); f != nil {
@@ -281,7 +824,145 @@ func TestProp(t *testing.T) {
 	})
 	r.Rapid("histories", r.Pick(3000, 40000), func(t *rapid.T) *vk.Fail {
 		c := Case{Root: rapid.IntRange(0, len(rootNames)-1).Draw(t, "root"), Ops: rapid.SliceOfN(opGen, 1, 300).Draw(t, "ops")}
-		// prefer recent contexts half of the time so deep chains appear
 		return runCase(r, c)
+	})
+
+	// ---- (G) witnesses of the two classes that are not asserted ----
+	for _, c := range []XCase{
+		{Root: 9},
+		{Root: 9, Ops: []XOp{{Op: "set", Ctx: 0, Key: "a", Val: "1"}, {Op: "new", Ctx: 0}}},
+		{Root: 0, Ops: []XOp{{Op: "newouter", Ctx: 0, NilData: true}, {Op: "set", Ctx: -1, Key: "a", Val: "1"}}},
+		{Root: 3, Ops: []XOp{{Op: "newouter", Ctx: 0, NilData: true}, {Op: "new", Ctx: -1}, {Op: "set", Ctx: 1, Key: "len", Val: "2"}}},
+		{Root: 8},
+		{Root: 8, Ops: []XOp{{Op: "new", Ctx: 0}}},
+		{Root: 8, Ops: []XOp{{Op: "new", Ctx: 0}, {Op: "new", Ctx: -1}, {Op: "set", Ctx: 1, Key: "b", Val: "nil"}}},
+		{Root: 8, Sparse: true, Ops: []XOp{{Op: "newouter", Ctx: 0, Data: map[string]string{"a": "1"}}}},
+	} {
+		if os.Getenv("C10_WITNESSES") == "" {
+			break // the two classes are not asserted: the witnesses run only on request
+		}
+		r.Check(runX(r, c))
+	}
+
+	pool := xrootPool(r)
+	nilDataOK := !isOpen(r, "nil-data-map")
+
+	// ---- (E2) every single-key history over the wide key / value pools ----
+	// quick: length 2 for every key, length 3 for a plain key and the late-registered built-in; thorough: length 3 for every key
+	L2 := 3
+	shortKeys := map[string]bool{}
+	if r.Quick() {
+		for _, k := range xkeys {
+			shortKeys[k] = k != "a" && k != lateName
+		}
+	}
+	var leaves2 int64
+	var rec2 func(root int, key string, ops []XOp, nctx int)
+	rec2 = func(root int, key string, ops []XOp, nctx int) {
+		if len(ops) == L2 || (len(ops) == 2 && shortKeys[key]) {
+			if r.Mine(leaves2) {
+				r.Check(runX(r, XCase{Root: root, Ops: append([]XOp(nil), ops...)}))
+			}
+			leaves2++
+			return
+		}
+		for c := 0; c < nctx; c++ {
+			if nctx < 3 {
+				rec2(root, key, append(ops, XOp{Op: "new", Ctx: c}), nctx+1)
+				for _, v := range []string{"1", "func"} {
+					rec2(root, key, append(ops, XOp{Op: "newouter", Ctx: c, Data: map[string]string{key: v}}), nctx+1)
+				}
+				if nilDataOK {
+					rec2(root, key, append(ops, XOp{Op: "newouter", Ctx: c, NilData: true}), nctx+1)
+				} else {
+					r.Exclude("nil-data-map")
+				}
+			}
+			for _, v := range xvals {
+				rec2(root, key, append(ops, XOp{Op: "set", Ctx: c, Key: key, Val: v}), nctx)
+			}
+		}
+	}
+	for _, root := range pool {
+		for _, k := range xkeys {
+			rec2(root, k, nil, 1)
+		}
+	}
+	for _, x := range xroots {
+		if x.class != "" && isOpen(r, x.class) {
+			r.Exclude(x.class)
+		}
+	}
+	r.Subspace(fmt.Sprintf("all single-key histories of length %d (quick: 2 except for keys a and c10late) over <=3 contexts (New, NewContextWithOuter with initial data {key: 1|func}, Set with 9 values) x %d keys x %d roots; dense reads, final sweep over all %d built-in names", L2, len(xkeys), len(pool), len(helperNames)), leaves2, true)
+
+	// ---- (R2) random wide histories: all operation kinds, dense or sparse reads, recent-context bias ----
+	xopGen := rapid.Custom(func(t *rapid.T) XOp {
+		o := XOp{Ctx: rapid.IntRange(0, 1<<20).Draw(t, "ctx")}
+		if rapid.IntRange(0, 2).Draw(t, "recent") == 0 {
+			o.Ctx = -1
+		}
+		switch k := rapid.IntRange(0, 11).Draw(t, "kind"); {
+		case k <= 1:
+			o.Op = "new"
+		case k == 2:
+			o.Op = "newouter"
+			if nilDataOK && rapid.IntRange(0, 7).Draw(t, "nildata") == 0 {
+				o.NilData = true
+				return o
+			}
+			o.Data = map[string]string{}
+			for n := rapid.IntRange(0, 3).Draw(t, "ndata"); n > 0; n-- {
+				k := rapid.SampledFrom(xkeys).Draw(t, "dkey")
+				v := rapid.SampledFrom(xvals).Draw(t, "dval")
+				if v == "nil" && isHelper[k] {
+					r.Exclude("unspecified: nil under a built-in name in a child's initial data")
+					continue
+				}
+				o.Data[k] = v
+			}
+		case k <= 7:
+			o.Op = "set"
+			o.Key = rapid.SampledFrom(xkeys).Draw(t, "key")
+			o.Val = rapid.SampledFrom(xvals).Draw(t, "val")
+		case k <= 9:
+			o.Op = "value"
+			o.Key = rapid.SampledFrom(xkeys).Draw(t, "key")
+		default:
+			o.Op = "has"
+			o.Key = rapid.SampledFrom(xkeys).Draw(t, "key")
+		}
+		return o
+	})
+	r.Rapid("wide-histories", r.Pick(8000, 30000), func(t *rapid.T) *vk.Fail {
+		c := XCase{
+			Root:   rapid.SampledFrom(pool).Draw(t, "root"),
+			Sparse: rapid.Bool().Draw(t, "sparse"),
+			Ops:    rapid.SliceOfN(xopGen, 1, 40).Draw(t, "ops"),
+		}
+		return runX(r, c)
+	})
+
+	// ---- (R3) deep chains: a chain of up to D contexts, writes at random depths, sparse reads ----
+	D := r.Pick(160, 320)
+	r.Rapid("deep-chains", r.Pick(30, 40), func(t *rapid.T) *vk.Fail {
+		c := XCase{Root: rapid.SampledFrom(pool).Draw(t, "root"), Sparse: true}
+		depth := rapid.IntRange(1, D).Draw(t, "depth")
+		if rapid.Bool().Draw(t, "nearmax") {
+			depth = D - depth%16
+		}
+		for d := 0; d < depth; d++ {
+			switch rapid.IntRange(0, 9).Draw(t, "write") {
+			case 0:
+				c.Ops = append(c.Ops, XOp{Op: "set", Ctx: -1, Key: rapid.SampledFrom(xkeys).Draw(t, "key"), Val: rapid.SampledFrom(xvals).Draw(t, "val")})
+			case 1:
+				c.Ops = append(c.Ops, XOp{Op: "value", Ctx: rapid.IntRange(0, d).Draw(t, "rctx"), Key: rapid.SampledFrom(xkeys).Draw(t, "key")})
+			}
+			c.Ops = append(c.Ops, XOp{Op: "new", Ctx: -1})
+		}
+		// late writes high up in the chain, read from the leaf by the final sweep
+		for n := rapid.IntRange(1, 3).Draw(t, "late"); n > 0; n-- {
+			c.Ops = append(c.Ops, XOp{Op: "set", Ctx: rapid.IntRange(0, depth).Draw(t, "wctx"), Key: rapid.SampledFrom(xkeys).Draw(t, "key"), Val: rapid.SampledFrom(xvals).Draw(t, "val")})
+		}
+		return runX(r, c)
 	})
 }
